@@ -179,13 +179,13 @@ Fixpoint lex_items (st : lstate) (l : list item) : list ctok :=
 
 (* a decimal literal Python accepts: digits with at most one dot and at least one digit; an integer literal with
    more than one digit must not start with 0 *)
-Fixpoint count_dots (s : string) : nat :=
-  match s with "" => 0 | String c r => (if Ascii.eqb c "." then 1 else 0) + count_dots r end.
-Fixpoint count_digits (s : string) : nat :=
-  match s with "" => 0 | String c r => (if is_digit c then 1 else 0) + count_digits r end.
+Fixpoint lit_dots (s : string) : nat :=
+  match s with "" => 0 | String c r => (if Ascii.eqb c "." then 1 else 0) + lit_dots r end.
+Fixpoint lit_digits (s : string) : nat :=
+  match s with "" => 0 | String c r => (if is_digit c then 1 else 0) + lit_digits r end.
 Definition num_ok (s : string) : bool :=
-  (count_dots s <=? 1) && (1 <=? count_digits s) && (String.length s =? count_dots s + count_digits s) &&
-  negb ((count_dots s =? 0) && (2 <=? String.length s) && head_is "0" s).
+  (lit_dots s <=? 1) && (1 <=? lit_digits s) && (String.length s =? lit_dots s + lit_digits s) &&
+  negb ((lit_dots s =? 0) && (2 <=? String.length s) && head_is "0" s).
 
 (* functions of the subset, by their name in the generated code *)
 Inductive fkind : Type := FExp | FLog | FMax | FMin | FAbs.
